@@ -4,10 +4,12 @@ Obligations: translators T-opcodes, T-consts, T-callmsg (the decision logic of S
 create / transfer_value / handle_insufficient_fund_case / copy_returndata_to_memory /
 Exec.returndata regenerated into coq/Gen/GenCallMsg.v), Props/C09.vo (refinement of the
 call-tree specification by the halmos call model on every script tree; atomicity,
-conservation, static context; four `_refuted` witnesses), lint.
+conservation, static context; the three situations repaired in sevm.py at full strength; one
+`_refuted` witness (depth limit)), lint.
 
 Tie X-C09 (L2): generated call trees (all call kinds x outcomes, symbolic and concrete
-values, re-entrancy, creations, calls of account-less addresses) are compiled into a pool of
+values, re-entrancy, creations, calls of account-less addresses, forks on symbolic input
+words -- in particular callees with several failing paths followed by caller writes) are compiled into a pool of
 dispatcher contracts and run through the REAL SEVM; for every concrete input and every
 reported path holding under it:
    halmos  vs extracted call model (result paths as a set, end kind, return data, storage
@@ -36,36 +38,23 @@ ASSUMPTIONS = [
     "frame scripts abstract callee code: what a frame does is a script (stores, observations, calls, creates, RETURNDATACOPY, ending); memory other than the observation buffer / return area, gas, CREATE2, precompiles, cheatcode addresses, SELFDESTRUCT are outside the model",
     "the reference interpreter Spec/Evm.v is the EVM oracle of the project (no second EVM implementation in the sandbox); the extracted model / spec / interpreter and the OCaml driver are faithful to the Coq definitions",
 ]
-PARTIAL = ("C09_refines holds under `clean`: the specified run meets none of the four marked situations (value-bearing CALL in a static frame, CALLCODE with value > balance, "
-           "RETURNDATACOPY of size 0 beyond the data, call of an account-less address at the depth limit); for each of them a `_refuted` theorem exhibits the deviation. "
-           "The depth-limit deviation is reachable only by 1024 nested frames and is not exercised by the correspondence run.")
+PARTIAL = ("C09_refines holds under `clean`: the specified run does not call an account-less address at the depth limit (C09_depth_nocode_refuted exhibits the deviation; "
+           "it is reachable only by 1024 nested frames and is exercised in the thorough tier only).")
 
 
 def install_known():
-    """known_findings.json is shared and must not be edited from here: merge KNOWN into what
-    Report.finish sees (same work-around as C18; see the final report)."""
-    if getattr(common.known_findings, "_c09", False):
-        return
-    orig = common.known_findings
-
-    def merged():
-        kf = dict(orig())
-        have = {k.get("id") for k in kf.get("findings", [])} | {k.get("id") for k in kf.get("fixed", [])}
-        kf["findings"] = list(kf.get("findings", [])) + [k for k in KNOWN if k["id"] not in have]
-        return kf
-
-    merged._c09 = True
-    common.known_findings = merged
+    """the entries of this property live in known_findings.json (read by Report.finish); nothing to merge"""
+    return
 
 
 CORPUS = [
-    # F11: static frame, value-bearing CALL
+    # (fixed fea28af) static frame, value-bearing CALL: must halt the static frame
     (["call", "STATICCALL", 0x1000, ["c", 0], 32,
       ["call", "CALL", 0x2000, ["c", 1], 0, ["end", "return", 3], ["observe", 0, ["end", "return", 4]]],
       ["observe", 0, ["end", "return", 5]]], False),
-    # CALLCODE with a symbolic value
+    # (fixed 91e78e2) CALLCODE with a symbolic value: no succeeding path when value > balance
     (["call", "CALLCODE", 0x1000, ["a", 0], 32, ["sstore", ["c", 1], ["c", 9], ["end", "return", 3]], ["observe", 1, ["end", "return", 4]]], False),
-    # RETURNDATACOPY size 0 beyond the data
+    # (fixed 4f2dd83) RETURNDATACOPY size 0 beyond the data: must halt
     (["call", "CALL", 0x1000, ["c", 0], 0, ["end", "stop", 0], ["retcopy", 1, 0, ["end", "return", 4]]], False),
     # rollback of nested effects: CALL -> (sstore, DELEGATECALL that reverts after a store, CALL that succeeds) -> revert
     (["sstore", ["c", 0], ["c", 7],
@@ -97,6 +86,22 @@ CORPUS = [
       ["create", ["a", 1], ["end", "return", 0], ["observe", 0, ["end", "return", 3]]]], False),
     # top-level static frame
     (["observe", 0, ["call", "CALL", 0x1000, ["c", 0], 32, ["sstore", ["c", 0], ["c", 1], ["end", "return", 2]], ["observe", 0, ["end", "return", 3]]]], True),
+    # a callee with two failing paths (fork on an input word); the caller reads, writes and reads
+    # again after the failed call: the rollback of one path must not see the other path's writes
+    (["sstore", ["c", 0], ["c", 3],
+      ["call", "CALL", 0x1000, ["c", 0], 32,
+       ["if", ["a", 0], ["sstore", ["c", 0], ["c", 5], ["end", "revert", 21]], ["tstore", ["c", 1], ["c", 6], ["end", "invalid", 22]]],
+       ["observe", 0, ["sstore", ["c", 0], ["c", 7], ["tstore", ["c", 0], ["c", 8], ["observe", 0, ["end", "return", 23]]]]]]], False),
+    (["call", "DELEGATECALL", 0x2000, ["c", 0], 64,
+       ["if", ["a", 1], ["sstore", ["c", 1], ["c", 5], ["end", "revert", 31]],
+        ["if", ["a", 0], ["end", "invalid", 32], ["sstore", ["c", 1], ["c", 9], ["end", "revert", 33]]]],
+       ["observe", 1, ["sstore", ["c", 1], ["c", 7],
+        ["call", "CALL", 0x1000, ["c", 0], 32, ["if", ["a", 0], ["end", "revert", 34], ["end", "invalid", 35]],
+         ["observe", 1, ["end", "return", 36]]]]]], False),
+    # value == balance exactly (boundary inputs), constant value: exactly one, succeeding, path -- CALL / CALLCODE / CREATE
+    (["call", "CALL", 0x1000, ["c", 1000], 32, ["observe", 0, ["end", "return", 2]], ["observe", 0, ["end", "return", 4]]], False),
+    (["call", "CALLCODE", 0x2000, ["c", 5], 32, ["observe", 0, ["end", "return", 3]], ["observe", 0, ["end", "return", 4]]], False),
+    (["create", ["c", 5], ["end", "return", 0], ["observe", 0, ["end", "return", 4]]], False),
     # calls of an address without account, with value
     (["call", "CALL", c09_lib.NOACC, ["a", 0], 32, ["end", "stop", 0],
       ["call", "STATICCALL", c09_lib.NOACC, ["c", 0], 0, ["end", "stop", 0], ["observe", 0, ["end", "return", 3]]]], False),
@@ -134,8 +139,11 @@ def depth_case(_task):
 
 def gen_trees(tier, r):
     trees = list(CORPUS)
-    n = 26 if tier == "quick" else 900
+    n = 22 if tier == "quick" else 900
     maxd = 3 if tier == "quick" else 4
+    for _ in range(8 if tier == "quick" else 300):
+        trees.append((c09_lib.gen_callfail(r), False))
+    n += len(trees) - len(CORPUS)
     while len(trees) < n + len(CORPUS):
         d = r.choice([1, 2, 2, 3, 3] if maxd == 3 else [1, 2, 3, 3, 4, 4])
         t = c09_lib.gen_script(r, d)
@@ -195,6 +203,7 @@ def run(rep, tier):
         for k in sorted(st["ends"]):
             rep.count("frame_ending", k)
         rep.count("symbolic_value", st["symbolic_value"])
+        rep.count("forks_in_tree", min(st.get("forks", 0), 4))
         rep.count("static_top", static)
         rep.count("halmos_paths", min(res["n_paths"], 12))
         for k, v in res["markers"].items():
@@ -239,7 +248,7 @@ def finish(rep, tier):
         trusted_base=common.TRUSTED_BASE_COMMON,
         assumptions=ASSUMPTIONS,
         partial=PARTIAL,
-        rule="cases = call trees (scripts of stores / transient stores / logs / observations / RETURNDATACOPY / CALL, CALLCODE, DELEGATECALL, STATICCALL to pool contracts, to the top contract (re-entrancy) or to an account-less address / CREATE, ended by stop / return / revert / invalid; depth <= 3 quick, <= 4 thorough; values and stored words constants or symbolic calldata arguments) compiled into dispatcher contracts; hand-written corpus first; per tree: concrete inputs = z3 models of every reported path + boundary perturbations + random inputs (caller, origin, value, arguments, balances); every (reported path, input) pair whose constraints hold is compared with the extracted call model (set of result paths; end kind, return data, storage read back, balances, code, full CallContext trace) and with the reference interpreter; the extracted spec is compared with the reference interpreter on every input. Non-trivial: the tree has a call or create and at least one (path, input) pair was evaluated; distinct by tree hash",
+        rule="cases = call trees (scripts of stores / transient stores / logs / observations / RETURNDATACOPY / forks on symbolic input words / CALL, CALLCODE, DELEGATECALL, STATICCALL to pool contracts, to the top contract (re-entrancy) or to an account-less address / CREATE, ended by stop / return / revert / invalid; depth <= 3 quick, <= 4 thorough; values and stored words constants or symbolic calldata arguments) compiled into dispatcher contracts; hand-written corpus first, then trees whose callee has >= 2 failing paths and whose caller reads / writes / reads after the failed call, then random trees; per tree: concrete inputs = z3 models of every reported path + boundary perturbations + random inputs (caller, origin, value, arguments, balances); every (reported path, input) pair whose constraints hold is compared with the extracted call model (set of result paths; end kind, return data, storage read back, balances, code, full CallContext trace) and with the reference interpreter; the extracted spec is compared with the reference interpreter on every input. Non-trivial: the tree has a call or create and at least one (path, input) pair was evaluated; distinct by tree hash",
     )
 
 
